@@ -27,6 +27,7 @@ func (w *world) renderAll(tid int) []interface{} {
 		func() {
 			defer func() {
 				if r := recover(); r != nil {
+					mustBeLibrary(r, "renderall "+fmtName+" "+entry)
 					status = "panic"
 				}
 			}()
@@ -85,6 +86,7 @@ func autoProbe(style string) M {
 	func() {
 		defer func() {
 			if r := recover(); r != nil {
+				mustBeLibrary(r, "autoprobe")
 				res["status"], res["empty"], res["panic"] = "panic", 0, fmt.Sprint(r)
 			}
 		}()
